@@ -243,7 +243,7 @@ theorem parseFunctionWith_ne_oof (pa : Text → Res (List Term)) (s : Text)
     nooof
   · nooof
 
-theorem unescLoop_length_le : ∀ (n : Nat) (s : Text), s.length ≤ n → ∀ (r q : Int) (oq : Bool), (unescLoop s r q oq).length ≤ s.length := by
+theorem unescLoop_length_le : ∀ (n : Nat) (s : Text), s.length ≤ n → ∀ (r q : Int) (oq : Bool), (unescLoop s r q oq).1.length ≤ s.length := by
   intro n
   induction n with
   | zero =>
@@ -256,9 +256,10 @@ theorem unescLoop_length_le : ∀ (n : Nat) (s : Text), s.length ≤ n → ∀ (
     | nil => simp [unescLoop]
     | cons ch rest =>
       simp only [List.length_cons] at hs
-      have one : ∀ r q oq, (ch :: unescLoop rest r q oq).length ≤ (ch :: rest).length := by
+      have one : ∀ r q oq, (ch :: (unescLoop rest r q oq).1).length ≤ (ch :: rest).length := by
         intro r q oq; simp only [List.length_cons]; exact Nat.succ_le_succ (ih rest (by omega) r q oq)
       unfold unescLoop
+      simp only
       repeat' split
       all_goals first
         | exact one _ _ _
@@ -268,7 +269,7 @@ theorem unescLoop_length_le : ∀ (n : Nat) (s : Text), s.length ≤ n → ∀ (
            omega)
         | (simp; done)
 
-theorem unescape_length_le (s : Text) : (unescape s).length ≤ s.length := unescLoop_length_le s.length s (Nat.le_refl _) 0 0 false
+theorem unescape_length_le (s : Text) : (unescape s).1.length ≤ s.length := unescLoop_length_le s.length s (Nat.le_refl _) 0 0 false
 
 /-! ### the mutual recursion: three units of fuel per character suffice -/
 
@@ -333,7 +334,7 @@ theorem term_fuel (po : POps) : ∀ n,
     subst hs0
     have : makeTerm po f1 [] false false false ≠ .oof := hM [] _ _ _ (by simp) f1 (by omega)
     simp only [parseTerm]
-    simpa [trim, trimEnd, trimStart, checkArithmeticInfix, arithLoop, termFlags, flagLoop] using this
+    simpa [trim, trimEnd, trimStart, checkArithmeticInfix, arithLoop, termFlags, flagLoop, unescape, unescLoop, checkQuotes, Res.bind] using this
   | succ n ih =>
     obtain ⟨ihT, ihM⟩ := ih
     have hM : ∀ s a b c, s.length ≤ n + 1 → ∀ f, 3 * (n + 1) + 2 ≤ f → makeTerm po f s a b c ≠ .oof :=
@@ -361,10 +362,9 @@ theorem term_fuel (po : POps) : ∀ n,
       refine Res.bind_ne_oof (ihT a1 (by omega) f1 (by omega)) (fun _ _ => ?_)
       refine Res.bind_ne_oof (ihT a2 (by omega) f1 (by omega)) (fun _ _ => ?_)
       simp
-    · apply hM
-      · split
-        · exact Nat.le_trans (unescape_length_le _) (by omega)
-        · omega
+    · refine Res.bind_ne_oof (checkQuotes_ne_oof _ _) (fun _ _ => ?_)
+      apply hM
+      · exact Nat.le_trans (unescape_length_le _) (by omega)
       · omega
 
 theorem parseTerm_fuel (po : POps) (s : Text) (f : Nat) (hf : 3 * s.length + 3 ≤ f) : parseTerm po f s ≠ .oof :=
